@@ -17,6 +17,7 @@ RULE = ('Hypothesis point-set pairs (n1 2-30, n2 1-30) from labelled families: c
         'maxmatch=k checked as a validity predicate against the unlimited list of the same input.  Non-trivial = >=1 true '
         'pair and (pairs found from >=2 chunks | seam straddled | |Dec|>80 | k-limited).')
 RULE += '  Also: match lengths up to 87 deg, slice-edge family (default chunk, ml 25-75 deg, partners across RA chunk edges at the +-30 deg slice edges), points down to 1 ulp from a pole, crowded fields with maxmatch >= 128.'
+RULE += ' Round 9: probes also at arcsecond match lengths (1-2 arcsec, RA up to 340 deg); the RA edges are computed from the ends of the slice the way the cell index is.'
 RULE += ' Round 5: sub-check grid_edge_probes (pairs across RA chunk edges at the polar edge of declination slices, grid read from the package).'
 ASSUMPTIONS = ['chunksize >= 4 x matchlength (IDL documentation; what spheregroup enforces)',
                'grid bounded to <= 2e4 cells by enlarging the chunk size (memory of the chunk grid, not a property)',
@@ -55,7 +56,10 @@ def case_strategy(draw):
     order = draw(st.permutations(list(range(len(ra1)))))
     pts['ra1'] = [ra1[i] for i in order]
     pts['dec1'] = [dec1[i] for i in order]
-    return dict(pts, ml=ml, chunksize=chunksize, maxmatch=mm)
+    prior = draw(st.sampled_from([None, None, None, None, None, 0.05, 0.2, 0.5]))
+    if prior is not None and chunksize is None:
+        chunksize = safe        # explicit, so that both calls use the same grid
+    return dict(pts, ml=ml, chunksize=chunksize, maxmatch=mm, prior=prior)
 
 
 def pairs_of(m1, m2):
@@ -70,6 +74,11 @@ def body(case):
     S = G.sepmat(ra1, dec1, ra2, dec2)
     must = set(zip(*[x.tolist() for x in np.nonzero(G.below(S, L))]))
     may = set(zip(*[x.tolist() for x in np.nonzero(~G.above(S, L))]))
+    if case.get('prior'):
+        # a scan over the match length: an earlier call on the very same array objects with another length (same chunk size) must not
+        # influence this one
+        call(spherematch, ra1, dec1, ra2, dec2, case['prior'] * L, chunksize=case['chunksize'] if case['chunksize'] is not None else G.safe_chunksize(ra1, dec1, max(4.0 * L, 0.1)), maxmatch=0)
+        note_label('after-a-call-with-another-length')
     m1, m2, d = call(spherematch, ra1, dec1, ra2, dec2, L, chunksize=case['chunksize'], maxmatch=0)
     with judge('unlimited'):
         got = pairs_of(m1, m2)
@@ -138,7 +147,7 @@ def body(case):
 # ------------------------------------------------------------------ probes placed on the edges of the chunk grid
 @st.composite
 def probe_case(draw):
-    ml = draw(st.sampled_from([1.0, 0.3, 2.0, 5.0, 0.1, 10.0])) * (1 + 0.05 * draw(G.unitf))
+    ml = draw(st.sampled_from([1.0, 0.3, 1.0 / 3600, 2.0, 5.0, 2.0 / 3600, 0.1, 10.0, 1e-3])) * (1 + 0.05 * draw(G.unitf))
     d0 = draw(st.sampled_from([83.0, 75.0, 60.0, -80.0, 30.0, -65.0, 86.0, 45.0]))
     return dict(ml=ml, d0=d0, ra0=draw(st.sampled_from([10.0, 200.0, 340.0, 95.0])), csf=draw(st.sampled_from([None, None, 4.0, 6.0])),
                 width=draw(st.sampled_from([6.0, 10.0, 16.0])), fracs=[draw(st.sampled_from([0.9990, 0.9995, 0.9999, 0.998, 0.995, 1.001])) for _ in range(24)],
@@ -179,7 +188,10 @@ def probe_body(case):
             for j in range(1, int(ch.nRa[i])):
                 if k >= len(case['fracs']):
                     break
-                edge = float(ch.raBounds[i][j]) - float(ch.raOffset)
+                # where the package's own cell index changes: computed from the two ends of the slice (as the index is), not read
+                # from the stored list of boundaries - the margin search has to agree with the former
+                b0, bn = float(ch.raBounds[i][0]), float(ch.raBounds[i][int(ch.nRa[i])])
+                edge = b0 + (bn - b0) * j / float(int(ch.nRa[i])) - float(ch.raOffset)
                 side = 1.0 if k % 2 == 0 else -1.0
                 r1 = edge + side * case['eps'][k]
                 f = case['fracs'][k]
@@ -232,7 +244,7 @@ def nontrivial(case, labels):
 
 
 SUBCHECKS = [
-    SubCheck('grid_edge_probes', probe_body, strategy=probe_case, classify=lambda c: ['ml:%g' % round(c['ml']), 'dec:%d' % c['d0']], nontrivial=lambda c, l: 'has-pairs' in l,
+    SubCheck('grid_edge_probes', probe_body, strategy=probe_case, classify=lambda c: ['ml:%.0e' % c['ml'], 'dec:%d' % c['d0']], nontrivial=lambda c, l: 'has-pairs' in l,
              quick=1200, thorough=40000, shards=(8, 16), floor=0.0,
              doc='pairs 0.995-1.001 match lengths apart placed across the RA chunk edges at the polar edge of declination slices (grid read from the package)'),
     SubCheck('match_vs_bruteforce', body, strategy=case_strategy, classify=classify, nontrivial=nontrivial,
